@@ -450,6 +450,10 @@ func (p *plan) keyOf(m stackitem.Item) {
 }
 
 func (p *plan) compound(filter func(stackitem.Item) bool) (stackitem.Item, bool) {
+	// sometimes consume the reference on top of the stack itself (possibly the last one)
+	if len(p.vs) > 0 && isCompound(p.vs[0]) && filter(p.vs[0]) && p.g.r.Chance(1, 4) {
+		return p.vs[0], true
+	}
 	srcs := p.sources(func(it stackitem.Item) bool { return isCompound(it) && filter(it) })
 	if len(srcs) == 0 {
 		return nil, false
